@@ -41,6 +41,8 @@ StepClause(t, s) ==
   ELSE IF s.lgLb # 0 /\ ~Within(s.lgLb, s.lgL, t.tau) THEN "load_of_stress_is_not_the_load"
   ELSE IF s.lgLbs # 0 /\ ~Within(s.lgLbs, s.lgL + Two, t.tau) THEN "load_range_of_stress_range_is_not_the_load_range"
   ELSE IF s.lgLbneg # 0 /\ ~Within(s.lgLbneg, s.lgL, t.tau) THEN "load_of_the_mirrored_stress_is_not_the_mirrored_load"
+  ELSE IF s.lgLbArr # 0 /\ ~Within(s.lgLbArr, s.lgL, t.tau) THEN "load_of_stress_given_as_array_is_not_the_load"
+  ELSE IF s.lgLbsArr # 0 /\ ~Within(s.lgLbsArr, s.lgL + Two, t.tau) THEN "load_range_of_stress_range_given_as_array_is_not_the_load_range"
   ELSE IF \E i \in 1..Len(s.forms) : ~Within(s.forms[i], s.lgS, t.tau) THEN "scalar_array_and_Series_inputs_differ"
   ELSE "ok"
 (* strictly increasing: compared with the last answered step of the walk *)
